@@ -13,7 +13,7 @@ P0 == [st |-> [meta |-> TRUE], tiers |-> <<>>, cnt |-> 0]
 UsedH  == {torrents[i].h : i \in DOMAIN torrents} \cup {o.h : o \in orphans} \cup {pc[c].h : c \in 1 .. K}
 FreshH == CHOOSE n \in 1 .. (2 * K + Cardinality(RANGE) + 2) : n \notin UsedH
 
-MCInit == InitWith([range |-> RANGE, k |-> K, atomic |-> ATOMIC, ret |-> FALSE])
+MCInit == InitWith([range |-> RANGE, k |-> K, atomic |-> ATOMIC, ret |-> FALSE, env |-> FALSE])
 
 Step(c) ==
     \/ \E id \in IDS : BeginAdd(c, id, IF FULL THEN FreshH ELSE 0, [explicit |-> TRUE, fail |-> IF STORAGE THEN "any" ELSE "none", p |-> P0])
@@ -23,7 +23,10 @@ Step(c) ==
     \/ \E stopped \in (IF FULL THEN BOOLEAN ELSE {TRUE}) : AddInsert(c, stopped)
     \/ AddStarted(c)
     \/ \E id \in IDS : BeginRemove(c, id)
-    \/ RemDetach(c) \/ RemDb(c) \/ RemRelease(c)
+    \/ RemDetach(c) \/ RemRelease(c)
+    \* (a failed record delete leaves a record without torrent - the environment's fault, not judged: only explored
+    \*  where nothing depends on registry = database, i.e. never in these configs; the trace specification drives it)
+    \/ RemDb(c, TRUE)
     \/ FULL /\ \E id \in IDS, op \in {"Start", "Stop"} : BeginFlag(c, op, id)
     \/ \E found \in BOOLEAN : pc[c].step = "lookup" /\ LookupViol(c, found) = "" /\ LookupUpd(c, found)
     \/ FlagApply(c)
